@@ -46,15 +46,15 @@ const (
 )
 
 type cdpU struct {
-	c        *sim.Chain
-	assets   []*uAsset
-	byDenom  map[string]*uAsset
-	byID     map[uint64]*uAsset
-	products []*uProduct
-	prodByID map[uint64]*uProduct
-	cdpApps  []uint64
-	variant  int
-	denoms   []string // when set, replaces cdpDenoms in snapshots (views over other universes)
+	c         *sim.Chain
+	assets    []*uAsset
+	byDenom   map[string]*uAsset
+	byID      map[uint64]*uAsset
+	products  []*uProduct
+	prodByID  map[uint64]*uProduct
+	cdpApps   []uint64
+	variant   int
+	denoms    []string // when set, replaces cdpDenoms in snapshots (views over other universes)
 	extraMods []string
 }
 
@@ -223,6 +223,12 @@ func newCDP(t *testing.T, o cdpOpts) *cdpU {
 			must(t, c.Gov(bindings.ComdexMessages{MsgWhitelistAppIDLockerRewards: &bindings.MsgWhitelistAppIDLockerRewards{AppID: app, AssetID: u.byDenom[debt].ID}}))
 		}
 	}
+	// emergency shutdown: trigger parameters of both CDP apps (target in the governance token, cool-off, the fixed
+	// redemption rates of the debt assets and of the stable collateral assets)
+	for _, app := range u.cdpApps {
+		must(t, c.Gov(bindings.ComdexMessages{MsgAddESMTriggerParams: &bindings.MsgAddESMTriggerParams{AppID: app, TargetValue: sdk.NewCoin("uharbor", sdk.NewInt(50_000_000)), CoolOffPeriod: 3600,
+			AssetID: []uint64{u.byDenom["ucmst"].ID, u.byDenom["ucmtw"].ID, u.byDenom["uusdc"].ID, u.byDenom["adai"].ID}, Rates: []uint64{1_000_000, 1_000_000, 1_000_000, 1_000_000}}}))
+	}
 	// generation 1: harbor
 	must(t, c.Gov(bindings.ComdexMessages{MsgWhitelistAppIDLiquidation: &bindings.MsgWhitelistAppIDLiquidation{AppID: appHarbor}}))
 	must(t, c.Gov(bindings.ComdexMessages{MsgAddAuctionParams: &bindings.MsgAddAuctionParams{AppID: appHarbor, AuctionDurationSeconds: 300, Buffer: dec("1.2"), Cusp: dec("0.6"),
@@ -251,4 +257,6 @@ func (u *cdpU) price(a *uAsset) (uint64, bool) {
 	return t.Twa, t.IsPriceActive
 }
 
-func (u *cdpU) String() string { return fmt.Sprintf("cdpU(variant=%d, %d products)", u.variant, len(u.products)) }
+func (u *cdpU) String() string {
+	return fmt.Sprintf("cdpU(variant=%d, %d products)", u.variant, len(u.products))
+}
